@@ -2,6 +2,7 @@ package rules
 
 import (
 	"fmt"
+	"go/token"
 	"go/types"
 	"strings"
 
@@ -351,4 +352,116 @@ func c13HelloFresh(c *Ctx) {
 	if n == 0 {
 		c.Observe("hello-message-fresh", "readHandshake parses a received hello into a new clientHelloMsg", "-", "no fresh allocation found in readHandshake: the message object comes from elsewhere (a pool is checked field by field)")
 	}
+}
+
+// c13HandshakeMessageWhole: a ClientHello may arrive spread over any number of records. readHandshake takes the
+// message out of the reassembly buffer with hand.Next(k); on the way there the buffer must have been filled to at least
+// that same k (the loop `for hand.Len() < k { readRecord }`, inline or in a helper whose bound is its argument).
+// bytes.Buffer.Next silently returns fewer bytes when fewer are buffered: with a smaller fill bound a hello whose last
+// record boundary falls into the difference is parsed truncated, rejected, and never reaches the fingerprinting callback.
+func c13HandshakeMessageWhole(c *Ctx) {
+	p := c.P
+	const rule = "handshake-message-whole"
+	fn := p.Method("services/ja3/crypto/tls", "Conn", "readHandshake")
+	if !c.Anchor(fn != nil && fn.Blocks != nil, rule, "(*tls.Conn).readHandshake") {
+		return
+	}
+	isBufCall := func(v ssa.Value, name string) (*ssa.Call, bool) {
+		cv, ok := v.(*ssa.Call)
+		if !ok {
+			return nil, false
+		}
+		f := cv.Call.StaticCallee()
+		if f == nil || !MethodIs(f, "bytes", "Buffer", name) {
+			return nil, false
+		}
+		return cv, true
+	}
+	// lenAtLeast: the condition says recv.Len() >= bound; returns (recv, bound)
+	lenAtLeast := func(dc Cond) (string, ssa.Value, bool) {
+		bo, ok := dc.V.(*ssa.BinOp)
+		if !ok {
+			return "", nil, false
+		}
+		if lc, ok := isBufCall(bo.X, "Len"); ok {
+			if (bo.Op == token.LSS && !dc.Pol) || (bo.Op == token.GEQ && dc.Pol) {
+				return Render(lc.Call.Args[0]), bo.Y, true
+			}
+		}
+		if lc, ok := isBufCall(bo.Y, "Len"); ok {
+			if (bo.Op == token.GTR && !dc.Pol) || (bo.Op == token.LEQ && dc.Pol) {
+				return Render(lc.Call.Args[0]), bo.X, true
+			}
+		}
+		return "", nil, false
+	}
+	n := 0
+	for _, call := range Calls(fn) {
+		nx, ok := isBufCall(valueOf(call), "Next")
+		if !ok {
+			continue
+		}
+		n++
+		recv, k := Render(nx.Call.Args[0]), nx.Call.Args[1]
+		var have []string
+		good := false
+		for _, dc := range DomConds(nx) {
+			// (a) inline: the exit condition of the fill loop
+			if r, y, ok := lenAtLeast(dc); ok && r == recv {
+				have = append(have, Render(y))
+				if Render(y) == Render(k) {
+					good = true
+				}
+			}
+			// (b) a helper: err := c.fill(y); err == nil here, and the helper returns nil only once Len() >= its parameter
+			bo, ok := dc.V.(*ssa.BinOp)
+			if !ok || !IsNilConst(bo.Y) || !((bo.Op == token.NEQ && !dc.Pol) || (bo.Op == token.EQL && dc.Pol)) {
+				continue
+			}
+			hc, ok := bo.X.(*ssa.Call)
+			if !ok {
+				continue
+			}
+			hf := hc.Call.StaticCallee()
+			if hf == nil || !InRepo(hf) || hf.Blocks == nil || hf.Signature.Results().Len() != 1 {
+				continue
+			}
+			for pi, prm := range hf.Params {
+				all := true
+				nNil := 0
+				for _, r := range Returns(hf) {
+					if !IsNilConst(RetVals(r)[0]) {
+						continue
+					}
+					nNil++
+					okR := false
+					for _, d2 := range DomConds(r) {
+						if _, y, ok := lenAtLeast(d2); ok && y == ssa.Value(prm) {
+							okR = true
+						}
+					}
+					if !okR {
+						all = false
+					}
+				}
+				if all && nNil > 0 && pi < len(hc.Call.Args) {
+					y := hc.Call.Args[pi]
+					have = append(have, Render(y)+" (via "+shortFn(hf)+")")
+					if Render(y) == Render(k) {
+						good = true
+					}
+				}
+			}
+		}
+		c.Check(good, rule, fmt.Sprintf("readHandshake hand.Next #%d", n), p.InstrPos(nx), "the buffer was filled to the same length that is taken out",
+			"the message is taken out with Next("+Render(k)+") but the reassembly only guarantees "+fmt.Sprint(have)+" buffered bytes: Next silently returns a shorter slice, so a hello whose last record boundary falls into the difference is parsed truncated and rejected – no fingerprint, no server name, handshake-failed for a well-formed hello")
+	}
+	c.Floor(rule, 1, "the message extraction of readHandshake")
+}
+
+func valueOf(call ssa.CallInstruction) ssa.Value {
+	if v, ok := call.(ssa.Value); ok {
+		return v
+	}
+	return nil
 }
